@@ -284,9 +284,9 @@ Handle(ll, e) ==
                THEN [gh EXCEPT ![s1].dstage = "restored", ![s1].dexact = exactNow] ELSE gh
     IN [vts |-> vts, gh |-> gh2,
         msgs |-> IF ~alive THEN <<>>
-                 ELSE CASE e.name = "ObsEq" -> (IF ObsEq(a, b) THEN <<>>
+                 ELSE CASE e.name = "ObsEq" -> (IF ObsEq(a, b) /\ HiddenEq(a, b) THEN <<>>
                                                  ELSE IF gh[s1].dclass # {} /\ exact THEN <<Msg("KNOWN C11", ll, "classes=" \o S(gh[s1].dclass))>>
-                                                 ELSE <<Msg("FAIL C11", ll, "restored terminal differs: " \o S(DiffFields(Pub(a), Pub(b)))
+                                                 ELSE <<Msg("FAIL C11", ll, "restored terminal differs: " \o S(DiffFields(Pub(a), Pub(b))) \o " hidden: " \o S(DiffFields(Hidden(a), Hidden(b)))
                                                             \o (IF gh[s1].dclass # {} THEN " (in class " \o S(gh[s1].dclass) \o " but not the known failure)" ELSE ""))>>)
                         [] e.name = "FreshEq" -> (IF FreshEq(a, b) THEN <<>> ELSE <<Msg("FAIL C19", ll, "differs from a fresh terminal: " \o S(TermDiff(NoDirty(a).t, NoDirty(b).t)))>>)
                         [] e.name = "ChunkEq" -> (IF ChunkEq(a, b) /\ ChunkEq(a, vts[e.slots[3]]) THEN <<>> ELSE <<Msg("FAIL C12", ll, "chunking changes the outcome: " \o S(TermDiff(Core(a), Core(b))) \o S(TermDiff(Core(a), Core(vts[e.slots[3]]))) \o S(a.p = b.p) \o S(a.t.buf.lines = b.t.buf.lines))>>)
